@@ -6,6 +6,7 @@
 
 #include <cmath>
 #include <cstdlib>
+#include <stdexcept>
 #include <vector>
 
 static int const SC = 16;        // boundaries are logged as floor(x * 2^16)
@@ -254,6 +255,7 @@ static void real_run(int run, vt::rng& g, int iters)
     std::size_t N = 400;
     long count = 0;
     bool zero_now = false;
+    long abort_after = -1, abort_calls = 0;
     int zero_it = 2 + (int) g.below(3); // one iteration (not the first) samples only zeros
     hep::vegas_pdf<T> const* curpdf = nullptr;
     auto fn = [&](hep::vegas_point<T> const& p) {
@@ -270,6 +272,7 @@ static void real_run(int run, vt::rng& g, int iters)
         // sharply peaked, but without tails that underflow in T: a smoothed value that underflows to zero makes the
         // damped importance jump from ~1/|ln r|^alpha to 0, which is a property of the number format, not of the code
         if (zero_now) return T();
+        if (abort_after >= 0 && abort_calls++ >= abort_after) throw std::runtime_error("the integrand gives up");
         T d = (x - peak) / width;
         return d * d > T(400) ? T() : T(1) / (T(1) + d * d);
     };
@@ -282,6 +285,18 @@ static void real_run(int run, vt::rng& g, int iters)
         auto pdf = chk.pdf();
         curpdf = &pdf;
         zero_now = it == zero_it;
+        if (zero_now && run % 2 == 0)
+        {
+            // before the iteration of zeros: an attempt at an ordinary iteration in which the integrand throws half way; the caller catches
+            // the exception and carries on with the checkpoint it had - nothing of the abandoned attempt may reach a later iteration
+            zero_now = false;
+            abort_after = (long) N / 2;
+            abort_calls = 0;
+            try { hep::vegas(integrand, std::vector<std::size_t>{N}, chk, hep::callback<C>(hep::callback_mode::silent)); }
+            catch (std::runtime_error const&) {}
+            abort_after = -1;
+            zero_now = true;
+        }
         chk = hep::vegas(integrand, std::vector<std::size_t>{N}, chk, hep::callback<C>(hep::callback_mode::silent));
         if (zero_now)
         {
